@@ -86,7 +86,9 @@ class Gen:
         self.rng, self.tier = rng, tier
         self.entries = []          # (kind, header_len, type_index, epd, msgtype, msg descriptor)
         by_enc = {m["enc_func"]: m for m in DESC["msgs"]}
-        epd = {r[2]: int(r[1]) for r in DESC["epd_decode"]}
+        # when the translator no longer recognises the dispatch code (a proof obligation is then broken anyway) the generators
+        # fall back on the TS 24.007 discriminators so that the search for a concrete failing input still runs
+        epd = {r[2]: int(r[1]) for r in (DESC.get("epd_decode") or [])} or {"Gmm": 0x7E, "Gsm": 0x2E}
         for kind, key in (("Gmm", "gmm"), ("Gsm", "gsm")):
             h = DESC[key]
             for cn, v, fn in h["encode"]:
@@ -247,6 +249,14 @@ class WellFormed(Stream):
     def direct_check(self, c, o):
         if "panic" in o:
             return "harness panic: " + o["panic"]
+        # the same judgement as nasrt_lossless, made here as well so that it survives a proof / translator break
+        if "enc" in o:
+            if "dec" not in o:
+                return "the library cannot decode its own encoding of a well-formed message: %s" % (o.get("dec_err") or o.get("dec_panic"))
+            if o["dec"].get("fields") != c["msg"]["fields"]:
+                return "decode(encode m) differs from m"
+            if o.get("reenc") != o["enc"]:
+                return "re-encoding the decoded message gives other bytes"
         return None
 
 
@@ -349,6 +359,9 @@ class Bytes(Stream):
                 msg = g.message(e, set(i for i in range(k) if rng.chance(1, 2)) if j else set(range(k)), "rand")
                 mand, opt = g.chunks(e, msg)
                 canonical = mand + b"".join(opt)
+                # canonical IE order = the order of the struct's fields (the order of the TS 24.501 table), not whatever
+                # order the encoder's statements happen to have
+                add(canonical, "canonical", expect=msg)
                 if len(opt) > 1:
                     sh = rng.shuffle(opt)
                     add(mand + b"".join(sh), "shuffled", expect=msg)
@@ -388,6 +401,12 @@ class Bytes(Stream):
             # optional IEs are recognised whatever order they arrive in
             if "dec" not in o or o["dec"].get("fields") != c["expect"]["fields"]:
                 return "decoding a permutation of the optional IEs does not give the message that was encoded"
+        if c["cls"] == "canonical":
+            # a well-formed byte string in canonical IE order is decoded to the message it encodes and re-encoded identically
+            if "dec" not in o or o["dec"].get("fields") != c["expect"]["fields"]:
+                return "decoding a well-formed byte string in canonical IE order does not give the message it encodes: %s" % (o.get("dec_err") or "fields differ")
+            if o.get("reenc") != c["hex"]:
+                return "re-encoding what was decoded from a canonical byte string gives %s" % (o.get("reenc") or o.get("reenc_err"))
         return None
 
 
